@@ -730,7 +730,7 @@ struct Brent : Bracket_Method
 	template <class T>
 	double Minimize(T& func)
 	{
-		const int ITMAX	   = 100;
+		const int ITMAX	   = 200;	// A minimiser at the origin needs up to log(bracket / 2e-16) / log(1.618) golden section steps, e.g. 110 for a bracket of 1e7.
 		const double CGOLD = 0.3819660;
 		const double ZEPS  = std::numeric_limits<double>::epsilon();
 		double a, b, d = 0.0, etemp, fu, fv, fw, fx, p, q, r, tol1, tol2, u, v, w, x, xm, e = 0.0;
